@@ -852,7 +852,7 @@ def lazy_programs() -> list[tuple[list[tuple], dict[str, Any], list[tuple]]]:
             vals = [P("b") if i == pos else (U1, U2, U3)[i if i < pos else i - 1] for i in range(n)]
             unreached = [v for i, v in enumerate(vals) if i > pos]
             add([("case", A, [(vals, W)], [("text", "E")])], unreached)
-            add([("case", A, [(vals, W), ([U3], [("text", "X")])], None)], unreached)
+            add([("case", A, [(vals, W), ([P("c")], [("text", "X")])], None)], unreached)
     # a later `when` block / the else block is not rendered
     add([("case", A, [([P("b")], W), ([P("c")], [("out", U1)])], [("out", U2)])], [U1, U2])
     add([("case", A, [([P("c")], [("out", U1)]), ([P("b")], W)], [("out", U2)])], [U1, U2])
